@@ -123,6 +123,7 @@ class Gen:
         self.cur_block: int | None = None  # index of the block being generated (None = outside blocks)
         self.cur_template = "main"
         self.inc_uses_lv = False
+        self.pair: tuple[str, str] | None = None
 
     # -- helpers -------------------------------------------------------------
     def d(self, n: int) -> int:
@@ -183,10 +184,15 @@ class Gen:
         return f"range({self.c_int(sc, depth + 1)} % 4)|list|length"
 
     def c_str(self, sc: Scope, depth: int) -> str:
+        if self.env_globals and self.chance(1, 10):
+            # environment global whose string conversion is a data event (visible in modules imported without context)
+            self.prog.feat("env_global_str_object")
+            return "gso"
         k = self.d(6 if depth < 2 else 2)
         if k == 5:
             # join looks at the eval context of the context it runs in (module context inside an imported macro)
-            return f"[{self.c_str(sc, depth + 1)}, {self.c_str(sc, depth + 1)}]|join"
+            # (only visible when an item is markup: then the other items are escaped, or not, by that eval context)
+            return f"[({self.c_str(sc, depth + 1)})|safe, {self.pick([chr(39) + 'a&b' + chr(39), chr(39) + '<u>' + chr(39), self.c_str(sc, depth + 1)])}]|join"
         if k == 0:
             return self.pick(sc.strs) if sc.strs else "'q'"
         if k == 1:
@@ -533,6 +539,8 @@ class Gen:
             0 if deep else 1,  # 20 autoescape block
             0 if sc.closed or self.probe else 1,  # 21 namespace initialised from a dict of the data
             3 if self.native else 0,  # 22 (native environments) container literal from a block set, mutated by the template
+            2 if self.env_globals and sc.in_loop else (1 if self.env_globals else 0),  # 23 set + context-passing global reading it back
+            2 if self.have_mod and self.cur_template not in ("mod", "inc") else 0,  # 24 print / include the module template itself
         ]
         k = self.tape.weighted(weights, self.stream)
         P = self.prog
@@ -654,6 +662,23 @@ class Gen:
         if k == 20:
             P.feat("autoescape_block")
             return self.tag(f"autoescape {self.pick(['false', 'true'])}") + self.body(Scope(sc), depth + 1) + self.tag("endautoescape")
+        if k == 23:
+            # a @pass_context global gets a context derived for THIS call (loop / block variables included) and reads
+            # the variable back after suspending (async) - each call must see its own frame's value
+            P.feat("pass_context_global_reads_local")
+            v = self.fresh("cv")
+            s = self.tag(f"set {v} = {self.e_int(sc, 1)}")
+            sc.ints.append(v)
+            return s + self.var(f"gcx('{v}')") + self.var(v)
+        if k == 24:
+            P.feat("module_printed_or_included")
+            kk = self.d(3)
+            if kk == 0:
+                return self.tag("include 'mod' without context")
+            al = self.fresh("pm")
+            if kk == 1:
+                return self.tag(f"import 'mod' as {al}") + self.var(al)
+            return self.tag(f"import 'mod' as {al}") + self.var(f"{al}|string|length") + self.tag("include 'mod' without context")
         if k == 21:
             P.feat("namespace_from_data_dict")
             ns = self.fresh("ns")
@@ -813,6 +838,18 @@ class Gen:
             name = self.fresh("mm")
             parts.append(self.macro_def(sc, 1, name))
             self.mod_exports.append((name, "macro", sc.macros[-1][1]))
+        if self.env_globals and self.chance(1, 3):
+            # two macros of one module that share the module's long-lived context: one changes the eval context for
+            # the duration of a block in which data is called, the other one's output depends on that eval context
+            self.prog.feat("module_macro_pair_eval_context")
+            a_, b_ = self.fresh("mm"), self.fresh("mm")
+            call = self.pick(["gf(q)", "gso", "gcx('q')", "gf(q) ~ gso"])
+            parts.append(self.tag(f"macro {a_}(q)") + self.tag(f"autoescape {self.pick(['true', 'false'])}")
+                         + self.var(call) + self.var("['<i>'|safe, 'a&b']|join") + self.tag("endautoescape") + self.tag("endmacro"))
+            parts.append(self.tag(f"macro {b_}(q)") + self.var("['<i>'|safe, 'a&b', q]|join") + self.tag("endmacro"))
+            self.mod_exports.append((a_, "macro", 1))
+            self.mod_exports.append((b_, "macro", 1))
+            self.pair = (a_, b_)
         if self.chance(1, 2):
             v = self.fresh("mv")
             parts.append(self.tag(f"set {v} = {self.e_int(sc, 1)}"))
@@ -837,6 +874,10 @@ class Gen:
                 v = self.fresh("mjo")
                 parts.append(self.tag(f"set {v} = joiner('|')"))
                 self.mod_exports.append((v, "joiner", 0))
+        if self.chance(1, 2):
+            # top-level output of the module body (kept in the cached module's body stream)
+            self.prog.feat("module_top_level_output")
+            parts.append(self.var(self.c_str(sc, 1)))
         parts.append(self.text())
         return "".join(parts)
 
@@ -857,6 +898,17 @@ class Gen:
         P.feat("from_import")
         names = ", ".join(n for n, _, _ in self.mod_exports)
         return self.tag(f"from 'mod' import {names}{ctx}")
+
+    def _pair_calls(self) -> str:
+        """Calls of both macros of the eval-context pair through the names the current importer sees."""
+        if self.pair is None:
+            return ""
+        names = {n.rsplit(".", 1)[-1]: n for n, k, _a in self.mod_exports if k == "macro"}
+        a_, b_ = names.get(self.pair[0]), names.get(self.pair[1])
+        if not a_ or not b_:
+            return ""
+        x, y = self.var(f"{a_}({self.d(4)})"), self.var(f"{b_}({self.d(4)})")
+        return (x + y) if self.chance(1, 2) else (y + x)
 
     def gen_inc(self) -> str:
         self.cur_template = "inc"
@@ -894,6 +946,7 @@ class Gen:
             parts = []
             if use_mod and self.chance(1, 2):
                 parts.append(self.import_stmt())
+                parts.append(self._pair_calls())
             else:
                 self.mod_exports = []
             parts.append(self.body(sc, 1, 1))
@@ -955,6 +1008,7 @@ class Gen:
             parts = []
             if use_mod:
                 parts.append(self.import_stmt())
+                parts.append(self._pair_calls())
             if self.chance(1, 3):
                 self.blocks = ["b0"]
                 P.feat("block_standalone")
